@@ -206,6 +206,8 @@ class Peer:
         self.fsm_runner: FSMRunner = FSMRunner()
         self._async_task: asyncio.Task[None] | None = None  # For async mode
         self._read_task: asyncio.Future[Message] | None = None  # read of the next message, kept across timeouts
+        self._run_task: asyncio.Future[None] | None = None  # the session attempt in progress (one call of _run)
+        self._run_abandoned: bool = False  # the attempt was given up for an accepted incoming connection
 
         # The peer should restart after a stop
         self._restart: bool = True
@@ -420,9 +422,18 @@ class Peer:
 
         self.proto = Protocol(self).accept(connection)
         self.fsm_runner.clear()
+        # The attempt in progress belongs to the connection which was just replaced (or to an outgoing
+        # connection still being opened): give it up, run() starts over on the accepted connection.
+        self._abandon_run()
         # Let's make sure we do some work with this connection
         self._delay.reset()
         return None
+
+    def _abandon_run(self) -> None:
+        task = self._run_task
+        if task is not None and not task.done():
+            self._run_abandoned = True
+            task.cancel()
 
     def established(self) -> bool:
         return self.fsm == FSM.ESTABLISHED
@@ -471,6 +482,12 @@ class Peer:
                     f'connection to {self.neighbor.session.peer_address}:{self.neighbor.session.connect} failed'
                 )
             raise Interrupted('connection failed') from None
+
+        except asyncio.CancelledError:
+            # the attempt was abandoned (incoming connection accepted): close the half-open outgoing socket
+            if proto.connection:
+                proto.connection.close()
+            raise
 
     async def _send_open(self) -> Open:
         """Sends OPEN message using async I/O"""
@@ -906,7 +923,18 @@ class Peer:
 
             if self._restart:
                 log.debug(lazymsg('peer.connection.initializing peer={p}', p=self.id()), 'reactor')
-                await self._run()
+                self._run_abandoned = False
+                self._run_task = asyncio.ensure_future(self._run())
+                try:
+                    await self._run_task
+                except asyncio.CancelledError:
+                    current = asyncio.current_task()
+                    cancelling = getattr(current, 'cancelling', None)
+                    if not self._run_abandoned or (cancelling is not None and cancelling()):
+                        raise  # the peer task itself is being cancelled
+                    log.debug(lazymsg('peer.connection.abandoned reason=incoming_connection_accepted'), self.id())
+                finally:
+                    self._run_task = None
                 # After _run completes, check if we should restart
                 if not self._restart:
                     break
